@@ -63,7 +63,7 @@ static size_t smallest_m_for(float F)
 }
 
 #define CHUNK_K ((size_t)1 << 18)
-static uint64_t a1_chunks, a2_cases, a3_cases, adiv_cases, b_cases, c_cases;
+static uint64_t a1_chunks, a2_cases, a3_cases, a4_cases, a5_cases, adiv_cases, b_cases, c_cases;
 static size_t topk[64];
 static int ntopk;
 
@@ -149,6 +149,43 @@ static void run_a3(uint64_t c, uint64_t ncases)      /* top keys x every scale f
     }
     vrt_sig(0, vrt_mix(0xA3, c));
 }
+/* A4: every 32-bit key (a change of the arithmetic, e.g. to double precision, moves the critical keys
+ * off the single-precision grid, so the grid argument of A2 must not be relied upon) */
+#define CHUNK32 ((uint64_t)1 << 24)
+static void run_a4(uint64_t c)
+{
+    static const size_t ms_q[] = { 1, 2147483647u };
+    static const size_t ms_t[] = { 1, 2, 3, 1000003, 2147483647u, (size_t)1 << 32, ((size_t)1 << 53) + 1, SIZE_MAX };
+    const size_t *ms = vrt_thorough ? ms_t : ms_q;
+    const int nm = vrt_thorough ? 8 : 2;
+    uint64_t k;
+    int j;
+    vrt_case_note("A4 mul: every key in [%llu, %llu) x %d table sizes", (unsigned long long)(c * CHUNK32),
+                  (unsigned long long)((c + 1) * CHUNK32), nm);
+    VRT_OP2("hash.mul", "all 32-bit keys chunk %ld x %ld sizes", c, nm);
+    for (j = 0; j < nm; j++) for (k = c * CHUNK32; k < (c + 1) * CHUNK32; k++) check_mul((size_t)k, ms[j]);
+    VRT_COUNT_N("A.mul.evaluations", CHUNK32 * nm);
+    VRT_COUNT_N("A.mul.all-32-bit-keys", CHUNK32);
+    vrt_sig(0, vrt_mix(0xA4, c));
+}
+/* A5: random 64-bit keys of every magnitude, m = 1 (any non-zero result is out of range) and a large m */
+static void run_a5(uint64_t c)
+{
+    vrt_rng g;
+    uint64_t i, n = (uint64_t)1 << 23;
+    vrt_rng_seed(&g, vrt_seed, 0xC17500 + c);
+    vrt_case_note("A5 mul: %llu random 64-bit keys of random magnitude", (unsigned long long)n);
+    VRT_OP1("hash.mul", "random 64-bit keys chunk %ld", c);
+    for (i = 0; i < n; i++) {
+        const size_t k = vrt_next(&g) >> (vrt_next(&g) & 31);
+        check_mul(k, 1);
+        check_mul(k, 0xfffffffffffull);
+    }
+    VRT_COUNT_N("A.mul.evaluations", 2 * n);
+    VRT_COUNT_N("A.mul.random-64-bit-keys", n);
+    vrt_sig(0, vrt_mix(0xA5, c));
+}
+
 static void run_adiv(uint64_t c)
 {
     vrt_rng g;
@@ -348,7 +385,9 @@ static uint64_t ncases(void)
     adiv_cases = vrt_thorough ? 64 : 16;
     b_cases = ncells();
     c_cases = vrt_thorough ? 4000 : 400;
-    return a1_chunks + a2_cases + a3_cases + adiv_cases + b_cases + c_cases;
+    a4_cases = 256;
+    a5_cases = vrt_thorough ? 256 : 32;
+    return a1_chunks + a2_cases + a3_cases + adiv_cases + b_cases + c_cases + a4_cases + a5_cases;
 }
 static void run_case(uint64_t idx)
 {
@@ -362,7 +401,11 @@ static void run_case(uint64_t idx)
     idx -= adiv_cases;
     if (idx < b_cases) { run_cell(idx); return; }
     idx -= b_cases;
-    run_c(idx);
+    if (idx < c_cases) { run_c(idx); return; }
+    idx -= c_cases;
+    if (idx < a4_cases) { run_a4(idx); return; }
+    idx -= a4_cases;
+    run_a5(idx);
 }
 static void winit(void)
 {
@@ -375,7 +418,7 @@ static void wfini(void)
     if (worst_den) vrt_max_dyn("max.A.mul.result-over-m.per-2^32", (uint64_t)(((unsigned __int128)worst_num << 32) / worst_den));
 }
 static const char *const required[] = {
-    "A.mul.evaluations", "A.div.evaluations", "A.mul.scale-factor-grid-points", "A.mul.float-grid-keys",
+    "A.mul.evaluations", "A.div.evaluations", "A.mul.scale-factor-grid-points", "A.mul.float-grid-keys", "A.mul.all-32-bit-keys", "A.mul.random-64-bit-keys",
     "B.cells.aborted-as-required", "B.cells.bad-value-on-relocation-path", "C.histories-without-abort", NULL
 };
 static const struct vrt_harness H = { "hashrange", ncases, run_case, winit, wfini, required, 16 };
